@@ -79,6 +79,19 @@ BUILT = {
         note='Trusted: TLC, the recorder (public API only), numpy. Bounded: maps up to 4x4 (all-histories model, quick) / 4x5, programs on maps up to 9x9; '
              'filter specified on NaN-free maps only; idempotence of tilt/power removal asserted only when the fitted modes are independent on the valid samples.',
         technique='TLA+ history-machine spec (Interferogram.tla) model-checked over all histories; recorded executions of the real class validated by TLC against InterferogramTrace.tla'),
+    'C14': dict(
+        spec='InstrumentFile.tla',
+        text='InstrumentFile.tla models a file as a header (the dimension fields) followed by the samples in the writer\'s order (both formats store the '
+             'map flipped top-to-bottom, row-major), the fault model "cut after k complete samples, optionally with part of the next", and the read '
+             'outcomes. TLC checks RoundTrip (same shape, every label at its own position, same invalid set) and NoSilentTruncation for every shape, '
+             'invalid set and cut of the bounded model; the three pinned layout bugs are variants that must violate the invariants. Every TLC behaviour '
+             'is replayed on REAL files: written by write_zygo_dat / write_codev_gridint / Interferogram.save_zygo_dat, cut at the byte offset the '
+             'abstract cut maps to (token boundaries found in the written text), read back with warnings captured, and checked against the relation '
+             'the property states with the spec\'s missing-set, for six value classes and distinct sample values (orientation observable).',
+        note='Trusted: TLC, the 200-line file driver. Bounded: shapes up to 3x3 (quick) / 4x3, at most 1 (2) invalid samples, every cut position in the '
+             'data block; quantisation step taken from the file\'s own header and bounded by the format range. Known finding: a Code V file cut inside '
+             'its last token is read silently (known_findings.jsonl).',
+        technique='TLA+ fault-machine spec (InstrumentFile.tla) checked by TLC over all truncation points; every behaviour replayed on real files written, cut and read by prysm'),
 }
 
 NOT_BUILT_REASON = 'not built yet in this round (specification planned in DESIGN.md section 4; never decided by another technique)'
